@@ -277,6 +277,8 @@ def classify_email(ctx, v, optbits=0):
             add_violation(ctx, "C07", "TLD classification", case)
         else:
             add_violation(ctx, "C01", "address decision (tld_check on)", case)
+    elif w.startswith("extra strings"):
+        add_violation(ctx, "C16", "EAV_EXTRA build: " + w, case)
     elif w in ("flag", "record"):
         add_violation(ctx, "C16", "result record: " + w, case)
         if w == "record" and tld == 0 and isinstance(v["exp"], int) and v["exp"] > 0:
@@ -382,6 +384,10 @@ def c12(ctx):
 
 def c16(ctx):
     q = ctx.quick()
+    # the EAV_EXTRA build: lpart / domain strings (and the same record pins) on the pool and bounded-exhaustive addresses
+    suite_email(ctx, 2, 0, variants=("extra",))
+    suite_email(ctx, 1, 4 if q else 6, variants=("extra",))
+    suite_ip(ctx, 2, 0, variants=("extra",))
     suite_email(ctx, 2, 0)
     suite_email(ctx, 1, 5 if q else 7)
     suite_ip(ctx, 2, 0)
@@ -406,6 +412,7 @@ def c15(ctx):
     suite_tld(ctx, 2)
     suite_tld(ctx, 1, 16 if q else 4)
     suite_object(ctx, 5 if q else 6, faults=True, small=True, graph=not q)
+    suite_policy(ctx, 1)        # the error code recorded for every (mask, result code, mode)
     suite_recorded(ctx, *((800, 800, 80) if ctx.quick() else (20000, 20000, 1000)))
     return finish(ctx, "model_checking",
                   "every code the model returns satisfies its truth predicate (TLC invariant on every enumerated state); every observed code "
@@ -522,8 +529,12 @@ def classify_history(ctx, v, backend="idn2"):
             "legend": "11 ints per step: op(1 init,2 rfc=,3 tld_check=,4 allow_tld=,5 setup,6 is_email(pool idx,fault),7 errstr,8 free), a1, a2, model obs..."}
     if backend != "idn2":
         add_violation(ctx, "C18", "backend %s: %s" % (backend, w), case)
+    steps = v["in"][1:]
+    earlier_fault = any(steps[11 * k] == 6 and steps[11 * k + 2] != 0 for k in range(min(v["opts"] + 1, len(steps) // 11)))
     if w.startswith("outcome differs") or w.startswith("errstr does not"):
         add_violation(ctx, "C13", w, case)
+        if earlier_fault:
+            add_violation(ctx, "C19", "after a converter failure: " + w, case)
     elif w in ("setup return", "errstr after refused setup", "diagnostics inconsistent", "errstr NULL"):
         add_violation(ctx, "C15", w, case)
         if w == "diagnostics inconsistent":
